@@ -287,7 +287,10 @@ impl Hist {
             // comes to hold amounts near the top of u128 — the contracts must cope with them or refuse
             "mint" => {
                 let to = t.s().to_string();
-                let cs = self.w.real_coins(&t.coins());
+                let named = t.coins();
+                // (plain denoms to user accounts only — see the driver's `mint` case and Properties/MintInv.lean)
+                if !crate::world::USERS.contains(&to.as_str()) || named.iter().any(|c| c.denom.starts_with("factory/pm/")) { return "err".into(); }
+                let cs = self.w.real_coins(&named);
                 let r = self.w.app.sudo(cw_multi_test::SudoMsg::Bank(cw_multi_test::BankSudo::Mint { to_address: self.w.a(&to).to_string(), amount: cs }));
                 self.w.arm(None);
                 if r.is_ok() { "ok".into() } else { "err".into() }
